@@ -73,6 +73,12 @@ LAMBDAS = {
     'acc_max': _named('acc_max')(lambda a, b: a if a >= b else b),
     'acc_cat': _named('acc_cat')(lambda a, b: a + [b]),
     'acc_cnt': _named('acc_cnt')(lambda a, b: a + 1),
+    'lt6': _named('lt6')(lambda x: x < 6),
+    'first_or0': _named('first_or0')(lambda x: (x[0] if len(x) else 0)),
+    'nonempty': _named('nonempty')(lambda x: len(x) > 0),
+    'len_lt2': _named('len_lt2')(lambda x: len(x) < 2),
+    'tupled': _named('tupled')(lambda x: tuple(x)),
+    'argpack': _named('argpack')(lambda *a, **kw: (a, tuple(sorted(kw.items())))),
 }
 
 TYPES = {'int': int, 'str': str, 'list': list, 'dict': dict, 'tuple': tuple, 'float': float,
@@ -195,6 +201,8 @@ class Builder:
 
     # ------------------------------------------------------------------ callables
     def func(self, name):
+        if name in ('skip_odd', 'stop_ge5', 'sent_eq3', 'skip3_stop7'):
+            return self._control_fn(name)
         if name in FUNCS:
             return FUNCS[name]
         if name in LAMBDAS:
@@ -202,6 +210,20 @@ class Builder:
         if name in TYPES:
             return TYPES[name]
         raise ValueError(name)
+
+    def _control_fn(self, name):
+        """functions returning this instance's SKIP / STOP singletons, or the sentinel -1"""
+        cache = self.__dict__.setdefault('_ctl', {})
+        if name not in cache:
+            SKIP, STOP = self.G.SKIP, self.G.STOP
+            f = {
+                'skip_odd': lambda x: SKIP if x % 2 else x,
+                'stop_ge5': lambda x: STOP if x >= 5 else x,
+                'sent_eq3': lambda x: -1 if x == 3 else x,
+                'skip3_stop7': lambda x: SKIP if x == 3 else (STOP if x == 7 else x),
+            }[name]
+            cache[name] = NamedFn(name, f)
+        return cache[name]
 
     def probe(self, pid, mode='id', arg=None):
         p = self.probes.get(pid)
